@@ -28,7 +28,7 @@ def workdir(prefix):
 # ---------------------------------------------------------------------------------------------
 def _cfg(scn):
     return {
-        'buses': [{'name': b['name'], 'parallel': bool(b.get('parallel')), 'maxhist': int(b.get('maxhist') or 0)} for b in scn['buses']],
+        'buses': [{'name': b['name'], 'parallel': bool(b.get('parallel')), 'maxhist': int(b.get('maxhist') or 0), 'wal': bool(b.get('wal'))} for b in scn['buses']],
         'handlers': [{'id': h['id'], 'bus': h['bus'], 'pat': h['pat'], 'kind': h.get('kind', 'async'), 'to': h.get('to', '')}
                      for h in scn['handlers']],
     }
@@ -63,7 +63,9 @@ _KEEP = {
     'ProcB': ['b', 'e', 'n'],
     'ProcE': ['b', 'e'],
     'ProcX': ['b', 'e', 'exc'],
-    'End': ['blocked', 'open', 'abort', 'failed', 'crldone'],
+    'End': ['blocked', 'open', 'abort', 'failed', 'crldone', 'wal'],
+    'Wal': ['b', 'e'],
+    'WalFault': ['b', 'e', 'at'],
 }
 
 
